@@ -33,6 +33,14 @@ static inline IT* std_Rb_tree_iterator_std_pair_ki32_i32_op_assign__xstd_Rb_tree
 static inline _Bool m_std_operator_op_ne__rkstd_Rb_tree_iterator_std_pair_ki32_i32_rkstd_Rb_tree_iterator_std_pair_ki32_i32(const IT* a, const IT* b) { return a->at != b->at; }
 static inline _Bool m_std_operator_op_eq__rkstd_Rb_tree_iterator_std_pair_ki32_i32_rkstd_Rb_tree_iterator_std_pair_ki32_i32(const IT* a, const IT* b) { return a->at == b->at; }
 static inline std_pair_ki32_i32* std_Rb_tree_iterator_std_pair_ki32_i32_op_arrow___k(const IT* i) { __CPROVER_assert(i->at != IT_END, "MODEL: a map iterator is dereferenced only when it is not end()"); return i->at == IT_W ? &g_slot_w : &g_slot_other; }
+/* std::set<int> for one arbitrary witness value */
+typedef struct { _Bool has_w; unsigned clears; } std_set_i32_std_less_i32_valloc_i32;
+typedef struct { int at; } std_Rb_tree_const_iterator_i32;
+static int g_sw; static _Bool g_s_seen_w; static unsigned long g_s_items, g_s_inserts;
+static inline void std_set_i32_std_less_i32_valloc_i32_clear(std_set_i32_std_less_i32_valloc_i32* m) { m->has_w = 0; m->clears++; }
+static inline std_Rb_tree_const_iterator_i32 std_set_i32_std_less_i32_valloc_i32_begin___k(const std_set_i32_std_less_i32_valloc_i32* m) { std_Rb_tree_const_iterator_i32 i; i.at = 0; return i; }
+static inline std_Rb_tree_const_iterator_i32 std_set_i32_std_less_i32_valloc_i32_insert__std_Rb_tree_const_iterator_i32_xi32(std_set_i32_std_less_i32_valloc_i32* m, std_Rb_tree_const_iterator_i32 hint, int* v) { (void)hint; g_s_inserts++; if (*v == g_sw) m->has_w = 1; std_Rb_tree_const_iterator_i32 i; i.at = 1; return i; }
+static inline std_Rb_tree_const_iterator_i32* std_Rb_tree_const_iterator_i32_op_assign__xstd_Rb_tree_const_iterator_i32(std_Rb_tree_const_iterator_i32* a, std_Rb_tree_const_iterator_i32* b) { *a = *b; return a; }
 #include "gen.h"
 /* ---- abstract document: a sequence of keys; NextKey says whether another one follows ---- */
 static int g_cur_key; static _Bool g_seen_w, g_have_cur; static unsigned long g_offered, g_keys; static _Bool g_slot_ok;
@@ -43,6 +51,13 @@ _Bool AbsLoadMapScope_SerializeValue__rki32_ri32(struct AbsLoadMapScope* s, cons
   g_offered++; if (*key != g_cur_key || value != (*key == g_w ? &g_slot_w.second : &g_slot_other.second)) g_slot_ok = 0;
   if (nondet_bool()) { __verif_exc = EXC_SerializationException; return 0; }
   if (nondet_bool()) { *value = nondet_int(); return 1; } return 0; }
+/* abstract array scope for sets: IsEnd is arbitrary (any number of items); an item loads (value delivered), is reported as not loaded (null /
+   skipped: the target is NOT written), or the load raises */
+_Bool AbsLoadSetScope_IsEnd___k(const struct AbsLoadSetScope* s) { return nondet_bool(); }
+_Bool AbsLoadSetScope_SerializeValue__ri32(struct AbsLoadSetScope* s, int* v) { g_s_items++; if (nondet_bool()) { __verif_exc = EXC_SerializationException; return 0; } if (nondet_bool()) return 0; int item = nondet_int(); *v = item; if (item == g_sw) g_s_seen_w = 1; return 1; }
+#define VERIF_LOOP_Detail_SerializeSetImpl_AbsLoadSetScope_std_set_i32_std_less_i32_valloc_i32__rAbsLoadSetScope_rstd_set_i32_std_less_i32_valloc_i32_1 \
+  __CPROVER_assigns(cont->has_w, hint.at, g_s_seen_w, g_s_items, g_s_inserts, __verif_exc, __verif_exc_code VERIF_TMPS_Detail_SerializeSetImpl_AbsLoadSetScope_std_set_i32_std_less_i32_valloc_i32__rAbsLoadSetScope_rstd_set_i32_std_less_i32_valloc_i32) \
+  __CPROVER_loop_invariant(__verif_exc == 0 && cont->has_w == g_s_seen_w && cont->clears == 1)
 static int g_mode; static _Bool g_has_w0;
 #define EXPECT_HAS(m) (g_mode == MapLoadMode_Clean ? g_seen_w : (g_mode == MapLoadMode_OnlyExistKeys ? g_has_w0 : (g_has_w0 || g_seen_w)))
 static MAP* g_map;
@@ -65,6 +80,11 @@ void h_load_map(void) { struct AbsLoadMapScope scope; static struct Serializatio
   VERIF_ASSERT("C18", __verif_exc != 0 || g_mode != MapLoadMode_UpdateKeys || m.has_w == (g_has_w0 || g_seen_w), "update-keys mode: a key is in the map afterwards iff it was there before or the document carried it");
   VERIF_ASSERT("C18,C03", g_slot_ok && g_offered <= g_keys, "a value is only ever loaded into the element of the key it was stored under, at most once per document key");
   VERIF_CANARY(); }
+void h_load_set(void) { struct AbsLoadSetScope scope; std_set_i32_std_less_i32_valloc_i32 m; m.has_w = nondet_bool(); m.clears = 0; g_sw = nondet_int(); g_s_seen_w = 0; g_s_items = 0; g_s_inserts = 0; __verif_exc = 0; __verif_exc_code = 0;
+  verif_inst_load_set__rAbsLoadSetScope_rstd_set_i32_std_less_i32_valloc_i32(&scope, &m);
+  VERIF_ASSERT("C18,C05", __verif_exc != 0 || (m.has_w == g_s_seen_w && m.clears == 1), "after loading a set, an arbitrary value is a member iff the document delivered it: no stale member survives, nothing loaded is lost, and an item that was NOT loaded (null / skipped) contributes no element");
+  VERIF_CANARY(); }
 /*@jobs
 job entry=h_load_map props=C18,C03,C02 mode=direct unwind=3
+job entry=h_load_set props=C18,C05,C02 mode=direct loops=1 unwind=3
 @*/
